@@ -43,7 +43,9 @@ class RecordingHP(object):
       return self.values[name]
     values = list(values)
     if not values:
-      raise EmptyChoice("`values` must be provided for %s" % name)
+      e = EmptyChoice("`values` must be provided for %s" % name)
+      e.choice_name = name
+      raise e
     if len(values) == 1:
       k = 0
     else:
@@ -448,6 +450,28 @@ def limit_st(draw, layers, qc_pairs, force_last_only=False):
     # order of the regular-expression keys matters
     pairs = (ppairs + pairs) if draw(st.booleans()) else (pairs + ppairs)
   pairs = [list(p) for p in pairs]
+  # ---- sometimes one entry that NO configured string of its role satisfies
+  # (numeric limit below the narrowest configured width): the library may
+  # refuse to build a trial, but a trial that is built must respect it
+  if draw(st.integers(0, 7)) == 0:
+    slots = []
+    for pi, (k, e) in enumerate(pairs):
+      if not isinstance(e, list) or not e or len(e) == 4 or k in R.RNN_CLASSES:
+        continue
+      if k == "BatchNormalization":
+        continue
+      if len(e) == 1 and (k == "Activation" or k not in R.WEIGHT_CLASSES):
+        slots.append((pi, 0, act_pairs))
+        continue
+      slots.append((pi, 0, qc_pairs["kernel"]))
+      if len(e) >= 2:
+        slots.append((pi, 1, qc_pairs["bias"]))
+      if len(e) >= 3:
+        slots.append((pi, 2, act_pairs))
+    if slots:
+      pi, pos, sec = draw(st.sampled_from(slots))
+      pairs[pi][1] = list(pairs[pi][1])
+      pairs[pi][1][pos] = _min_bits(sec) - 1
   if default is not None:
     pairs.append(["default", default])
   return pairs
@@ -589,6 +613,16 @@ def dfs_specs(tier):
                          ["quantized_relu(8,2)", 8]],
           "linear": [["quantized_bits(4,1)", 4]]},
       "arities": [2, 3, 2, 2]})
+  # H: a bias limit that no configured bias string satisfies (one leaf)
+  specs.append({
+      "input": [4],
+      "layers": [
+          {"k": "Dense", "name": "fc_0", "units": 3, "act": None, "use_bias": True},
+          {"k": "Activation", "name": "relu_0", "act": "relu"},
+          {"k": "Dense", "name": "fc_1", "units": 2, "act": None, "use_bias": True}],
+      "limit": [["Dense", [1, 2, 4]], ["Activation", [4]]],
+      "layer_indexes": None, "tune_filters": "none", "tune_exc": "^$",
+      "activation_bits": 4, "qconfig": _SMALL_QC, "arities": []})
   if tier != "quick":
     # E: default configuration, conv stack with a group and list limits
     specs.append({
